@@ -268,8 +268,9 @@ def AnnExpr.hasStarL : List AnnExpr → Bool
 end
 
 /-- **D13.starUnpack**: the expression contains `*tuple[...]` (PEP 646 star syntax). `_Visitor` has
-no `visit_Starred` (AST / string route raises), the runtime route ignores `__unpacked__` (nested
-tuple), the in-source route falls back to `tuple[Any]`. -/
+no `visit_Starred` (the AST / string route reports "Unsupported syntax in annotation: Starred" and
+reads the member as `Any[error]`; before 9c1e869 it raised), the runtime route ignores
+`__unpacked__` (nested tuple), the in-source route falls back to `tuple[Any]`. -/
 def D13_starUnpack (e : AnnExpr) : Bool := e.hasStar
 
 mutual
